@@ -81,8 +81,13 @@ def run_property(prop: str, tier: str):
             if k2 not in seen and k2 in reg.contracts and not reg.contracts[k2].trusted:
                 todo.append(k2)
         if rep.error:
+            changed = bool(rep.source) and load_baseline().get(key, {}).get('sha') not in (None, rep.source.get('sha256_16'))
             if rep.error.startswith('missing function'):
                 unsupported.append({'function': key, 'reason': rep.error})
+            elif changed:
+                # the VC generator fails on source that differs from the source the contracts were written against: the sidecar
+                # contract no longer fits its shape — undecided (the floor decides alone), never a checker error
+                unsupported.append({'function': key, 'reason': 'contract does not fit the changed source: ' + rep.error.split('\n')[0][:200]})
             else:
                 errors.append('%s: %s' % (key, rep.error))
             continue
@@ -105,6 +110,25 @@ def run_property(prop: str, tier: str):
         functions.append({'function': 'lemma:' + lname, 'mode': 'deductive', 'obligations': len(obligations) - n0,
                           'file': 'contracts (pure-logic lemma over the contracts)'})
     res = solve_all(obligations, timeout_s=timeout, cross_check=(tier == 'thorough')) if obligations else {}
+    # second look before anything is reported on CHANGED source: an obligation of a function whose source differs from the
+    # baseline and that did not discharge is solved again — after the pool has drained (less load), few at a time, with three
+    # times the budget.  A slow proof on harmlessly edited source must not become an alarm; a broken one fails again.
+    base0 = load_baseline()
+    again, per_fn = [], {}
+    for o in obligations:
+        if o.kind == 'canary' or res.get(o.name, ('unsat',))[0] in ('unsat', 'sat', 'error'):
+            continue
+        src = src_of.get(id(o)) or {}
+        b = base0.get(o.fn, {})
+        if b and b.get('sha') != src.get('sha256_16') and per_fn.get(o.fn, 0) < 12:
+            per_fn[o.fn] = per_fn.get(o.fn, 0) + 1
+            again.append(o)
+    if again:
+        res2 = solve_all(again, timeout_s=3 * timeout, jobs=6)
+        for o in again:
+            if res2.get(o.name, ('unknown',))[0] == 'unsat':
+                v2 = res2[o.name]
+                res[o.name] = (v2[0], v2[1] + ' (second look)', v2[2] + res[o.name][2], v2[3])
     failed, unknown, by_backend, solver_seconds = [], [], {}, 0.0
     canaries = {}
     call_canaries = {}
